@@ -142,9 +142,12 @@ def starts_search(case):
             want = [] if n == 0 else want + ([n] if stop else [])
             call = f"{name}(array with (chain, res_id, ins_code, res_name) rows {list(rows)}, add_exclusive_stop={stop})"
             try:
-                got = np.asarray(f(a, add_exclusive_stop=stop)).tolist()
+                raw = np.asarray(f(a, add_exclusive_stop=stop))
+                got = raw.tolist()
             except Exception as e:
                 return True, f"{call} raised {type(e).__name__}: {e}"
+            if not np.issubdtype(raw.dtype, np.integer):
+                return True, f"{call} is an array of dtype {raw.dtype}: the starts are indices (integers)"
             if got != want:
                 return True, f"{call} = {got}, per-atom rule gives {want}"
     return False, f"{tried} arrays of 0..4 atoms all agree with the per-atom rule"
